@@ -448,6 +448,11 @@ else:
     out["mdc"] = [float(x).hex() for x in p3.mdc_gid_to_east_x(np.array([0, 1, 2]))]
     out["emc"] = [float(x).hex() for x in p3.emc_gid_to_center_x(np.array([0, 1]))]
     out["gid"] = [int(x) for x in p3.get_mdc_gid(np.array([0, 1, 42]), np.array([0, 3, 7]))]
+    # quantities the package derives from the tables outside the geometry modules (record parsers)
+    _r = p3.parse_mdc_gid(np.array([0, 1, 2]), with_pos=True)
+    out["mid_x"] = [float(x).hex() for x in _r["mid_x"]]; out["parse_east_x"] = [float(x).hex() for x in _r["east_x"]]
+    _e = p3.parse_emc_gid(np.array([0, 1]), with_pos=True)
+    out["parse_center_x"] = [float(x).hex() for x in _e["center_x"]]
 print(json.dumps(out))
 '''
 
@@ -529,6 +534,10 @@ def e2e(src, level):
         newv = bump("mdc_geom.npz", "east_x")
         c = run("use")
         cc = caches()
+        _t = np.load(geom / "mdc_geom.npz")
+        expect(c["mid_x"] == [float(x).hex() for x in ((_t["west_x"] + _t["east_x"]) / 2)[:3]] and c["parse_east_x"][0] == newv,
+               "e2e:stale-derived-value-after-table-update", f"parse_mdc_gid(with_pos=True) after the table update: mid_x {c['mid_x']}, east_x {c['parse_east_x']} "
+               f"- the table now gives mid_x {[float(x).hex() for x in ((_t['west_x'] + _t['east_x']) / 2)[:3]]}, east_x[0] {newv}")
         expect(c["mdc"][0] == newv, "e2e:stale-value-after-table-update",
                f"mdc_gid_to_east_x(0) = {c['mdc'][0]} but the table now holds {newv} (old {a['mdc'][0]})")
         expect(all(cc.get(n) != v for n, v in ca.items() if n.startswith("mdc.")), "e2e:stale-mdc-cache-kept", "an mdc cache file survived the table update unchanged")
